@@ -55,6 +55,10 @@ ASSUMPTIONS = [
     "confirmed on the 3 captured vectors of okdmr/tests/dmrlib/etsi/crc/test_crc32.py (computed with vp/refs/gf2.py, "
     "independently of the C05 check)",
     "'report a valid CRC-9' is read as the receiver's crc9_ok attribute of each confirmed block handed to the observer",
+    "library surface the harness relies on (public API used by the repository's tests / named as the property's observation "
+    "points; no tracker internals such as blocks_expected are read): TransmissionGenerator.generate_full_data_transmission, "
+    "DataHeader(...), Burst.as_bytes / from_bytes / data / data_type, CSBK.csbko / blocks_to_follow, Terminal(dmrid, observers), "
+    "Terminal.process_incoming_burst, the observer callbacks, DataHeader.pad_octet_count, rate block data / crc32 / crc9_ok",
     "pad octets are only counted (announced pad = received octets - payload octets); their value enters the CRC-32 clause",
 ]
 
